@@ -40,6 +40,8 @@ CONSTANTS StoreOnAbort,   \* TRUE = behaviour of the code before the C06 repair
           G,              \* which game graph
           ClockMode,      \* TRUE: free-running clock process; FALSE: deadline = Budget nodes (hook semantics)
           Budget,         \* the node budget of the interruptible searches when ~ClockMode
+          PollMode,       \* ~ClockMode only: TRUE = Budget counts evaluations of should_stop() (the Budget-th is the
+                          \* first to answer true), FALSE = Budget counts nodes (both are hooks in src/timer.rs)
           Orders,         \* set of child orders explored: subset of {"fwd", "rev"}
           Vals            \* static evaluations a position can have (all assignments are explored)
 
@@ -103,6 +105,9 @@ RepDraw(stack, q) == Count(stack, q) >= 2
 Rev(s) == [i \in 1..Len(s) |-> s[Len(s) + 1 - i]]
 QMoves(p) == IF Chk[p] THEN Moves[p]
              ELSE SelectSeq(Moves[p], LAMBDA x : \E j \in Tact[p] : Moves[p][j] = x)
+\* order in which quiescence examines its moves (order_captures; any permutation is a refinement - the
+\* trace specification replaces this operator by the recorded order)
+QOrd(p, o) == IF o = "rev" THEN Rev(QMoves(p)) ELSE QMoves(p)
 
 (* ---------------- reference: minimax with leaves valued by the unpruned quiescence recursion *)
 RECURSIVE QV(_, _)
@@ -131,25 +136,29 @@ variables ev \in [Pos -> Vals], ord \in Orders,
 
 define {
   \* src/timer.rs should_stop(): wall clock (set by the clock process) or node budget (hook)
-  Stop == IF ClockMode THEN expired ELSE armed /\ nodes >= Budget
+  \* the answer of should_stop() when it is evaluated for the k-th time in this search
+  StopAt(k) == IF ClockMode THEN expired ELSE armed /\ (IF PollMode THEN k >= Budget ELSE nodes >= Budget)
+  Stop == StopAt(polls)
 }
 
 \* every evaluation of should_stop() in the code is one poll; firstTrue remembers which one was the
 \* first to answer true (used to show that node budgets reach every interruption point)
-macro poll() { polls := polls + 1; if (Stop /\ firstTrue = 0) { firstTrue := polls } }
+\* (StopAt(polls) AFTER the assignment: the translation primes the variable in the argument, whereas the
+\* defined operator Stop would still read the old counter)
+macro poll() { polls := polls + 1; if (StopAt(polls) /\ firstTrue = 0) { firstTrue := polls } }
 
 procedure quiesce(qp, qa, qb)       \* src/search.rs:226 search_until_quiet
   variables qms = <<>>, qi = 1, qs = 0;
 {
  q0: if (Stop) { after := after + 1 };     \* entered although should_stop() would already answer true
      nodes := nodes + 1;
-     qms := IF ord = "rev" THEN Rev(QMoves(qp)) ELSE QMoves(qp);
+     qms := QOrd(qp, ord);
  q1: if (qms = <<>> /\ Chk[qp]) { ret := -MATE; return; }          \* checkmate detection
      else if (ev[qp] >= qb) { ret := qb; return; }                 \* stand-pat cut-off (fail hard)
      else { qa := Max2(qa, ev[qp]) };
  q2: while (qi <= Len(qms)) {
         poll();
-        if (Stop) { goto q4 };
+        if (StopAt(polls)) { goto q4 };
  q2c:   call quiesce(qms[qi], -qb, -qa);
  q3:    qs := -ret;
  q3b:   if (qs >= qb) { ret := qb; return; }
@@ -176,7 +185,7 @@ procedure negamax(p, depth, ply, alpha, beta)     \* src/search.rs:141
       nbm := ms[1];                                                 \* SearchResult::worst(moves[0])
  n2: while (i <= Len(ms)) {
         poll();
-        if (Stop) { goto n4 };
+        if (StopAt(polls)) { goto n4 };
  n2c:   call negamax(ms[i], depth - 1, ply + 1, -beta, -alpha);
  n3:    sc := -ret;
         if (sc > nb) { nb := sc; nbm := ms[i] };
@@ -184,7 +193,7 @@ procedure negamax(p, depth, ply, alpha, beta)     \* src/search.rs:141
         if (alpha >= beta) { goto n4 } else { i := i + 1 };
      };
  n4: poll();
-     if (StoreOnAbort \/ ~Stop) {                                   \* the C06 repair: no store after the deadline
+     if (StoreOnAbort \/ ~StopAt(polls)) {                                   \* the C06 repair: no store after the deadline
         if (tt[p].depth <= depth) {                                 \* depth-preferred replacement
            tt[p] := [depth |-> depth, score |-> nb, move |-> nbm,
                      bound |-> IF nb <= a0 THEN "U" ELSE IF nb >= beta THEN "L" ELSE "E"];
@@ -199,12 +208,12 @@ procedure find_best_move()       \* src/search.rs:75
  f0: best := -INF; bestMove := NoMove; curD := 1; nodes := 0; after := 0; polls := 0; firstTrue := 0;
  f1: while (curD <= D) {
         poll();
-        if (Stop) { goto f8 };
+        if (StopAt(polls)) { goto f8 };
  fp:    hist := Append(hist, Root);                                 \* search_position: push the root
  f2:    call negamax(Root, curD, 0, -INF, INF);
  f3:    hist := SubSeq(hist, 1, Len(hist) - 1);                     \* pop
         poll();
-        if (~Stop) {
+        if (~StopAt(polls)) {
            best := ret; bestMove := retMove; completed := curD;
            if (tt[Root].depth <= curD) {                            \* cache_search_result
               tt[Root] := [depth |-> curD, score |-> ret, move |-> retMove, bound |-> "E"];
@@ -239,7 +248,8 @@ VARIABLES pc, ev, ord, tt, hist, expired, armed, ret, retMove, nodes, after,
           stack
 
 (* define statement *)
-Stop == IF ClockMode THEN expired ELSE armed /\ nodes >= Budget
+StopAt(k) == IF ClockMode THEN expired ELSE armed /\ (IF PollMode THEN k >= Budget ELSE nodes >= Budget)
+Stop == StopAt(polls)
 
 VARIABLES qp, qa, qb, qms, qi, qs, p, depth, ply, alpha, beta, a0, nb, nbm, i, 
           sc, e, lo, hi, ms
@@ -302,7 +312,7 @@ q0(self) == /\ pc[self] = "q0"
                   ELSE /\ TRUE
                        /\ after' = after
             /\ nodes' = nodes + 1
-            /\ qms' = [qms EXCEPT ![self] = IF ord = "rev" THEN Rev(QMoves(qp[self])) ELSE QMoves(qp[self])]
+            /\ qms' = [qms EXCEPT ![self] = QOrd(qp[self], ord)]
             /\ pc' = [pc EXCEPT ![self] = "q1"]
             /\ UNCHANGED << ev, ord, tt, hist, expired, armed, ret, retMove, 
                             polls, firstTrue, best, bestMove, round, done, 
@@ -343,11 +353,11 @@ q1(self) == /\ pc[self] = "q1"
 q2(self) == /\ pc[self] = "q2"
             /\ IF qi[self] <= Len(qms[self])
                   THEN /\ polls' = polls + 1
-                       /\ IF Stop /\ firstTrue = 0
+                       /\ IF StopAt(polls') /\ firstTrue = 0
                              THEN /\ firstTrue' = polls'
                              ELSE /\ TRUE
                                   /\ UNCHANGED firstTrue
-                       /\ IF Stop
+                       /\ IF StopAt(polls')
                              THEN /\ pc' = [pc EXCEPT ![self] = "q4"]
                              ELSE /\ pc' = [pc EXCEPT ![self] = "q2c"]
                   ELSE /\ pc' = [pc EXCEPT ![self] = "q4"]
@@ -596,11 +606,11 @@ n1c(self) == /\ pc[self] = "n1c"
 n2(self) == /\ pc[self] = "n2"
             /\ IF i[self] <= Len(ms[self])
                   THEN /\ polls' = polls + 1
-                       /\ IF Stop /\ firstTrue = 0
+                       /\ IF StopAt(polls') /\ firstTrue = 0
                              THEN /\ firstTrue' = polls'
                              ELSE /\ TRUE
                                   /\ UNCHANGED firstTrue
-                       /\ IF Stop
+                       /\ IF StopAt(polls')
                              THEN /\ pc' = [pc EXCEPT ![self] = "n4"]
                              ELSE /\ pc' = [pc EXCEPT ![self] = "n2c"]
                   ELSE /\ pc' = [pc EXCEPT ![self] = "n4"]
@@ -670,11 +680,11 @@ n3(self) == /\ pc[self] = "n3"
 
 n4(self) == /\ pc[self] = "n4"
             /\ polls' = polls + 1
-            /\ IF Stop /\ firstTrue = 0
+            /\ IF StopAt(polls') /\ firstTrue = 0
                   THEN /\ firstTrue' = polls'
                   ELSE /\ TRUE
                        /\ UNCHANGED firstTrue
-            /\ IF StoreOnAbort \/ ~Stop
+            /\ IF StoreOnAbort \/ ~StopAt(polls')
                   THEN /\ IF tt[p[self]].depth <= depth[self]
                              THEN /\ tt' = [tt EXCEPT ![p[self]] = [depth |-> depth[self], score |-> nb[self], move |-> nbm[self],
                                                                     bound |-> IF nb[self] <= a0[self] THEN "U" ELSE IF nb[self] >= beta[self] THEN "L" ELSE "E"]]
@@ -725,11 +735,11 @@ f0(self) == /\ pc[self] = "f0"
 f1(self) == /\ pc[self] = "f1"
             /\ IF curD <= D
                   THEN /\ polls' = polls + 1
-                       /\ IF Stop /\ firstTrue = 0
+                       /\ IF StopAt(polls') /\ firstTrue = 0
                              THEN /\ firstTrue' = polls'
                              ELSE /\ TRUE
                                   /\ UNCHANGED firstTrue
-                       /\ IF Stop
+                       /\ IF StopAt(polls')
                              THEN /\ pc' = [pc EXCEPT ![self] = "f8"]
                              ELSE /\ pc' = [pc EXCEPT ![self] = "fp"]
                   ELSE /\ pc' = [pc EXCEPT ![self] = "f8"]
@@ -790,11 +800,11 @@ f2(self) == /\ pc[self] = "f2"
 f3(self) == /\ pc[self] = "f3"
             /\ hist' = SubSeq(hist, 1, Len(hist) - 1)
             /\ polls' = polls + 1
-            /\ IF Stop /\ firstTrue = 0
+            /\ IF StopAt(polls') /\ firstTrue = 0
                   THEN /\ firstTrue' = polls'
                   ELSE /\ TRUE
                        /\ UNCHANGED firstTrue
-            /\ IF ~Stop
+            /\ IF ~StopAt(polls')
                   THEN /\ best' = ret
                        /\ bestMove' = retMove
                        /\ completed' = curD
